@@ -641,4 +641,65 @@ theorem pick_some (m : BufMap) (pred : Nat → Option Nat) (flow win : Nat) (pre
               have := hE3 r rfl
               exact ⟨r, rfl, by omega⟩
 
+/-- `BufMap::pick` on a well-formed colour map does not panic, answers inside `pickOk`, keeps the map well-formed
+and recolours exactly the answered range `Flighting`. -/
+theorem pick_refines (m : BufMap) (s : SendSpec) (pred : Nat → Option Nat) (flow : Nat)
+    (hwf : WF m) (hsize : s.size = m.size) (hcol : ∀ x, s.colour x = m.abs x)
+    (hwin : m.size ≤ s.maxData) (h62 : m.size < 2 ^ 62) (hp : PredDom pred) :
+    ∃ m' r, pick m pred flow s.maxData = .ok (m', r) ∧ WF m' ∧ m'.size = m.size ∧
+      pickOk s pred flow (obsOf r) ∧ ∀ x, m'.abs x = (s.picked (obsOf r)).colour x := by
+  have hw := win_eq m s hsize hwin
+  have hlt : ∀ r ∈ m.runs, r.1 < s.maxData := fun r hr => by have := hwf.lt_size r hr; omega
+  have hspec := findPick_spec flow s.maxData m.runs 0 {} hlt
+  cases hfp : findPick flow s.maxData m.runs 0 {} with
+  | mk res sg =>
+  rw [hfp] at hspec
+  cases res with
+  | none =>
+    dsimp only at hspec
+    refine ⟨m, .none sg, ?_, hwf, rfl, ?_, fun x => (hcol x).symm⟩
+    · unfold pick; rw [hfp]; rfl
+    · exact Or.inl (firstCand_none m s flow hsize hcol hwin hspec)
+  | some v =>
+    obtain ⟨idx, start, color⟩ := v
+    dsimp only at hspec
+    obtain ⟨pre, post, hruns, hidx, hpre, hsend⟩ := hspec
+    simp only [Nat.zero_add] at hidx
+    subst hidx
+    obtain ⟨hfc, hfw⟩ := firstCand_some m s flow pre post start color hwf hsize hcol hwin hruns hpre hsend
+    cases hpr : pred start with
+    | none =>
+      refine ⟨m, .none { sg with cong := true }, ?_, hwf, rfl, ?_, fun x => (hcol x).symm⟩
+      · unfold pick; rw [hfp]; dsimp only; rw [hpr]; rfl
+      · right; rw [hfc]; exact hpr
+    | some available =>
+      obtain ⟨hav, hav63⟩ := hp start available hpr
+      obtain ⟨runs', b, hpick, hs', hlt', hsb, hbsz, hbpost, hbav, hbflow, habs⟩ :=
+        pick_some m pred flow s.maxData pre post start color available sg hwf hwin h62 hruns hfp hpr hav hav63 hsend
+      have hsorted : Sorted (pre ++ (start, color) :: post) := hruns ▸ hwf.sorted
+      have hcover : ∀ x, start ≤ x → x < b → s.colour x = color := by
+        intro x h1 h2
+        rw [hcol, abs_of_lt _ _ (by omega), hruns]
+        exact colourAt_run pre post start color .recved x
+          (fun r hr => by have := Sorted.lt hsorted r hr (start, color) (by simp); simp at this; omega) h1
+          (fun r hr => by have := hbpost r hr; omega)
+      have hcs : s.colour start = color := hcover start (Nat.le_refl _) hsb
+      refine ⟨{ m with runs := runs' }, .range start b (color == .pending), hpick, ⟨hs', hlt'⟩, rfl, ?_, ?_⟩
+      · simp only [obsOf, pickOk]
+        refine ⟨hfc.symm, hfw, hsb, by omega, ?_, ?_, ?_, ?_⟩
+        · intro x h1 h2
+          rw [hcover x h2 h1, hcs]
+        · rw [hpr]; exact hbav
+        · rw [hcs]
+        · intro h
+          rw [hcs] at h
+          exact hbflow h
+      · intro x
+        simp only [obsOf, SendSpec.picked, setRange]
+        by_cases hx : x < m.size
+        · rw [abs_of_lt { runs := runs', size := m.size } x hx, hcol, abs_of_lt m x hx]
+          exact habs x hx
+        · rw [abs_of_ge { runs := runs', size := m.size } x (Nat.le_of_not_lt hx), if_neg (by omega), hcol,
+            abs_of_ge m x (by omega)]
+
 end GmQuic.BufMap
